@@ -40,7 +40,7 @@ theorem setCrc_post (n : Int) (s : DrvState) (h : Inv s) :
   have hb := bits_crc _ h.ok.config _ (crcLen_eq n).2
   unfold setCrc
   exec_simp [(crcLen_eq n).1]
-  rw [h.cached.config, exec_regWrite_nat _ _ _ (Nat.lt_trans hb.2.1 (by decide)) (by decide)]
+  rw [h.cached.config, exec_regWrite_nat3 _ _ _ (Nat.lt_trans hb.2.1 (by decide)) (by decide)]
   refine write_tail h (by steps) (modShadow_cfg _ _ rfl) (by decide) ?_ rfl ?_
   · rw [Radio.w_config _ _ hb.2.1 (.inr hb.2.2), hb.1]; rfl
   · refine { h.cached with config := ?_ }
@@ -68,7 +68,7 @@ theorem setPower_post (b : Bool) (s : DrvState) (h : Inv s) :
   have hb := bits_power _ h.ok.config b
   unfold setPower
   exec_simp [readVal_config]
-  rw [exec_regWrite_nat _ _ _ (Nat.lt_trans hb.2.1 (by decide)) (by decide)]
+  rw [exec_regWrite_nat3 _ _ _ (Nat.lt_trans hb.2.1 (by decide)) (by decide)]
   exec_simp []
   refine Post.sleep _ (write_tail h (by steps) ?_ (by decide) ?_ rfl ?_)
   · rw [modShadow_cfg _ _ rfl, spiStep_read_cfg _ _ _ h.wf (by decide)]
@@ -101,7 +101,7 @@ theorem interruptConfig_post (dr ds df : Bool) (s : DrvState) (h : Inv s) :
   have hb := bits_irq _ h.ok.config dr ds df
   unfold interruptConfig
   exec_simp [readVal_config]
-  rw [exec_regWrite_nat _ _ _ (Nat.lt_trans hb.2.1 (by decide)) (by decide)]
+  rw [exec_regWrite_nat3 _ _ _ (Nat.lt_trans hb.2.1 (by decide)) (by decide)]
   refine write_tail h (by steps) ?_ (by decide) ?_ rfl ?_
   · rw [modShadow_cfg _ _ rfl, modShadow_cfg _ _ rfl, spiStep_read_cfg _ _ _ h.wf (by decide)]
   · rw [Radio.w_config _ _ hb.2.1 (.inr hb.2.2), hb.1]; rfl
@@ -121,7 +121,7 @@ theorem setAddressLength_post (n : Int) (s : DrvState) (h : Inv s) (hn : 3 ≤ n
     Post (exec (setAddressLength n) s) s (.ok ()) { s.cfg with setupAw := n.toNat - 2 } s.d.pipe0ReadAddr := by
   unfold setAddressLength
   exec_simp [hn]
-  rw [exec_regWrite_nat _ _ _ (by omega) (by decide)]
+  rw [exec_regWrite_nat3 _ _ _ (by omega) (by decide)]
   refine write_tail h (by steps) (modShadow_cfg _ _ rfl) (by decide) ?_ rfl ?_
   · rw [Radio.w_setupAw _ _ (by omega) (by omega)]; rfl
   · refine { h.cached with addrLen := ?_ }
@@ -133,7 +133,7 @@ theorem setAddressLength_bad_post (n : Int) (s : DrvState) (h : Inv s) (hn : ¬ 
       { s.cfg with setupAw := 0, violations := s.cfg.violations ++ ["SETUP_AW:illegal:0"] } s.d.pipe0ReadAddr := by
   unfold setAddressLength
   exec_simp [hn]
-  rw [exec_regWrite_nat _ _ _ (by omega) (by decide)]
+  rw [exec_regWrite_nat3 _ _ _ (by omega) (by decide)]
   refine write_tail h (by steps) (modShadow_cfg _ _ rfl) (by decide) ?_ rfl ?_
   · rw [show (2 - 2 : Nat) = 0 from rfl, Radio.w_setupAw0]; rfl
   · exact { h.cached with addrLen := rfl }
